@@ -38,12 +38,25 @@ pub struct World {
 pub fn world() -> &'static World {
     static W: OnceLock<World> = OnceLock::new();
     W.get_or_init(|| {
+        // Half of the documents and authors have ids ending in 0xFF (found by trying secrets), so
+        // that the carry cases of the namespace / author range bounds are exercised with real keys.
+        fn grind(base: u8, want_ff: bool, id_of: &dyn Fn(&[u8; 32]) -> [u8; 32]) -> [u8; 32] {
+            let mut secret = [base; 32];
+            for n in 0u32..1_000_000 {
+                secret[..4].copy_from_slice(&n.to_le_bytes());
+                let id = id_of(&secret);
+                if (id[31] == 0xFF) == want_ff {
+                    return secret;
+                }
+            }
+            secret
+        }
         let mut docs: Vec<NamespaceSecret> = (0..N_DOCS)
-            .map(|i| NamespaceSecret::from_bytes(&[0x11 + i as u8; 32]))
+            .map(|i| NamespaceSecret::from_bytes(&grind(0x11 + i as u8, i % 2 == 1, &|s| NamespaceSecret::from_bytes(s).id().to_bytes())))
             .collect();
         docs.sort_by_key(|d| d.id());
         let mut authors: Vec<Author> = (0..N_AUTHORS)
-            .map(|i| Author::from_bytes(&[0x51 + i as u8; 32]))
+            .map(|i| Author::from_bytes(&grind(0x51 + i as u8, i % 2 == 1, &|s| Author::from_bytes(s).id().to_bytes())))
             .collect();
         authors.sort_by_key(|a| a.id());
         let mut peers: Vec<[u8; 32]> = (0..N_PEERS)
